@@ -175,8 +175,8 @@ impl Property for C12 {
     }
     fn budget(&self, tier: Tier) -> Budget {
         match tier {
-            Tier::Quick => Budget { cases: 30_000, min_len: 8, max_len: 300 },
-            Tier::Thorough => Budget { cases: 2_000_000, min_len: 8, max_len: 400 },
+            Tier::Quick => Budget { cases: 400000, min_len: 8, max_len: 300 },
+            Tier::Thorough => Budget { cases: 8000000, min_len: 8, max_len: 400 },
         }
     }
 
